@@ -24,7 +24,8 @@ TECHNIQUE = "runtime monitoring: reference critical-value oracle + exact-zero / 
 LEVEL_TEXT = ("For every penalty that defines a critical strength, alpha_max is compared with the reference critical value "
               "and solvers/estimators are run just above and just below it on non-centred data, with and without "
               "intercept, with zero weights, groups and tasks, dense and CSC: above => exactly zero penalised "
-              "coefficients and an optimal null model; below => a non-zero coefficient.")
+              "coefficients and an optimal null model; below => a non-zero coefficient. Generators include l1_ratio down to "
+              "1e-7, alpha far above alpha_max, centred designs and task means all on one side.")
 LEVEL_NOTE = ("trusted: vlib/refmath.py gradients, numpy lstsq / bisection for the reference null model; positive=True "
               "variants are not judged (alpha_max is then only an upper bound of the critical value); MCP variants are judged "
               "above alpha_max only when the cold start is the null model (no intercept, no unpenalised feature)")
